@@ -43,6 +43,7 @@ type vPeer struct {
 	addr     string
 	id       uint32
 	up       bool
+	refuse   bool // a dial fails (blocking dial that times out): DialContext returns (nil, error)
 	reading  bool
 	readGate chan struct{} // closed while the peer reads
 	streams  []*vCliStream
@@ -92,6 +93,7 @@ func vNewNet() *vNetT {
 
 func (n *vNetT) addPeer(id uint32, up bool) *vPeer {
 	p := &vPeer{addr: fmt.Sprintf("127.0.0.1:%d", 9000+int(id)), id: id, up: up, reading: true, readGate: make(chan struct{}), delivered: map[uint64]int{}}
+	p.refuse = vDialRefused
 	close(p.readGate)
 	n.peers[p.addr] = p
 	return p
@@ -100,7 +102,8 @@ func (n *vNetT) addPeer(id uint32, up bool) *vPeer {
 // ---- redirected gRPC entry points ----
 
 // Contract: the non-blocking dial always yields a connection handle; whether the peer is
-// reachable only shows when a stream is created.
+// reachable only shows when a stream is created. A blocking dial (grpc.WithBlock) to a peer that
+// does not answer fails instead: (nil, error) - modelled by vPeer.refuse.
 //
 //verif:stub google.golang.org/grpc.DialContext
 func vstubDialContext(ctx context.Context, target string, opts ...grpc.DialOption) (*grpc.ClientConn, error) {
@@ -110,6 +113,10 @@ func vstubDialContext(ctx context.Context, target string, opts ...grpc.DialOptio
 	if p == nil {
 		vAtomicEnd()
 		return nil, errors.New("verif: unknown address " + target)
+	}
+	if p.refuse {
+		vAtomicEnd()
+		return nil, errors.New("verif: dial timed out " + target)
 	}
 	vNet.conns[cc] = p
 	vNet.open[cc] = true
@@ -307,6 +314,8 @@ type vWorld struct {
 // non-first member of a configuration.
 var (
 	vFullStackFirstID uint32
+	// vDialRefused: peers created while it is set refuse dials (vPeer.refuse)
+	vDialRefused bool
 	vThinFirstID      uint32
 )
 
@@ -335,6 +344,11 @@ func vFullStack(n int, up []bool, opts ...ManagerOption) *vWorld {
 			panic(err)
 		}
 		w.nodes = append(w.nodes, node)
+		// failure descriptors of goroutines parked in methods of this channel carry the flag
+		// (used to tell the known wedge F-C09-stale from other ways of blocking there)
+		if node.channel != nil {
+			vWatch("streamBroken", &node.channel.streamBroken.flag)
+		}
 	}
 	cfg, err := NewRawConfiguration(w.mgr, WithNodeIDs(ids))
 	if err != nil {
